@@ -1,5 +1,4 @@
 import Ldlm.Proofs.SessionEnd
-import Ldlm.Props.Pins
 /-!
 C06 — Session end releases exactly that session's holds, whatever is in flight.
 
